@@ -179,8 +179,10 @@ class histogram():
         # check that their edges coincide.
         # The user can separately compare their edges if they
         # have different requirements.
-        if not isclose(self.edges, other.edges,
-                       abs_tol=edges_abs_tol, rel_tol=edges_rel_tol):
+        # isclose does not compare the dimensions of its arguments
+        if (self.nbins != other.nbins or
+            not isclose(self.edges, other.edges,
+                        abs_tol=edges_abs_tol, rel_tol=edges_rel_tol)):
             raise LenaValueError("can not add histograms with different edges")
 
         if weight != 1:
